@@ -236,10 +236,41 @@ func (e *Exec) checkLockOrder(st *State, instr ssa.Instruction, l Val) {
 
 // ---------------- field disciplines ----------------
 
+// checkAccess: semantic part of the field disciplines. A field published by
+// closing a channel may be read only on paths on which that close has been
+// observed (or by the publisher itself / while the object is fresh).
 func (e *Exec) checkAccess(st *State, loc *Loc, write bool, instr ssa.Instruction) {
-	// full discipline checking is done by the whole-package pass (discipline.go);
-	// here we only need guarded accesses for soundness of the monitor rule when
-	// verifying a function under contract.
+	if loc.Owner == "" || e.fc == nil {
+		return
+	}
+	tc := e.typeContract(loc.Owner)
+	if tc == nil {
+		return
+	}
+	d, ok := tc.Fields[loc.Field]
+	if !ok || d.Class != "published_by" || write {
+		return
+	}
+	if e.isFresh(st, loc.Ref) {
+		return
+	}
+	pub := firstField(d.Arg)
+	if strings.HasSuffix(e.fname, ".recvLoop") {
+		return // the publisher reads its own writes
+	}
+	t := e.ownerType(loc.Owner)
+	if t == nil {
+		return
+	}
+	f, _ := findField(t, pub)
+	if f == nil {
+		return
+	}
+	ch := e.loadFrom(st, &Loc{Key: fieldKey(loc.Owner, pub), Typ: f.Type(), Ref: loc.Ref}, false)
+	n := st.counts["pubread:"+loc.Owner+"."+loc.Field]
+	st.counts["pubread:"+loc.Owner+"."+loc.Field] = n + 1
+	e.oblige(st, "discipline", fmt.Sprintf("observed/%s.%s@%s", loc.Owner, loc.Field, e.srcAnchor(st.top(), instr)), []string{"C15"},
+		"field "+loc.Owner+"."+loc.Field+" (published by closing "+pub+") is read only after that close has been observed", e.chanClosed(st, ch.T[0], false, nil), instr.Pos())
 }
 
 func (e *Exec) checkMapAccess(st *State, m ssa.Value, write bool, instr ssa.Instruction) {}
